@@ -95,3 +95,20 @@ reg(
     TECHNIQUE="round-trip runtime monitoring with an independent strict parser (structural oracle) + forward-escaping reference",
     REQUIRED_MONITORS={"quick": {"parse_back": 5000, "part_compare": 8000, "wire_roundtrip": 3}, "thorough": {"parse_back": 10**5, "part_compare": 10**5, "wire_roundtrip": 20}},
 )
+
+reg(
+    "C18",
+    RULE="pairs of request contexts for one PoolManager that differ in exactly one keyword (or in none / only host case and explicit default port); the keyword universe is computed from inspect.signature of HTTP(S)ConnectionPool and HTTP(S)Connection constructors + PoolKey._fields + SSL_KEYWORDS; every keyword gets 2-13 pairwise-distinct typed values, all value pairs are compared, via pool_kwargs and via constructor defaults, for http and https; a case is (keyword, scheme, placement, value index); distinct = distinct such tuples; all are non-trivial",
+    ASSUMPTIONS=COMMON_ASSUMPTIONS + [
+        "values come from a typed table; a keyword missing from the table gets two sentinel strings and is listed in the evidence",
+        "'equal settings' means equal by the value type's own equality (dicts/lists by value; SSLContext, Retry, Timeout objects by identity)",
+        "blocksize=None is documented to mean the default block size and is not required to differ from it",
+    ],
+    SHARDS={"quick": 4, "thorough": 8},
+    BUDGET={"quick": 30, "thorough": 120},
+    EXHAUSTIVE={"quick": True, "thorough": True},
+    LEVEL_TEXT="Runtime monitoring of pool identity: for every keyword the constructors accept (derived from their signatures at run time) and every pair of table values, the PoolManager's returned pool objects are observed for distinctness / sameness, the manager's defaults are snapshotted before and after, and a sample of keywords is driven end to end over the in-memory network to observe that a differing setting dials a new socket.",
+    LEVEL_NOTE="Complete over the signature-derived keyword set and the value table (finite, enumerated); trusts inspect.signature and the value table's typing.",
+    TECHNIQUE="signature-derived differential monitoring of pool identity + dial-count monitor on the in-memory network",
+    REQUIRED_MONITORS={"quick": {"distinct_for_different": 300, "same_for_equal": 100, "defaults_unchanged": 50, "e2e_dials": 10}, "thorough": {"distinct_for_different": 300, "same_for_equal": 100, "defaults_unchanged": 50, "e2e_dials": 10}},
+)
